@@ -162,6 +162,8 @@ func alnRun(a align.Aligner, ref, query align.AlphabetSlicer) (out alnRunOut) {
 	// the returned slice is the caller's: it is overwritten with the pairs of an earlier, unrelated answer (and
 	// truncated), so an aligner that hands out a shared value would hand the damage on to a later caller
 	out.raw = append([]feat.Pair(nil), raw...)
+	// an answer stays the caller's after later calls: the answers held from earlier calls are read again, then this one is held
+	alnHeldAfterCall(out.raw, out.pairs)
 	if len(raw) > 0 {
 		if alnKept == nil || (len(raw) > 1 && len(raw) < 6) {
 			alnKept = append([]feat.Pair(nil), raw...)
@@ -211,15 +213,34 @@ func (c alnCase) witness(out alnRunOut, extra map[string]interface{}) map[string
 
 // alnCheck runs one aligner configuration on one pair and reports to the stream selected by which ("C08" or "C09").
 // It returns whether the case was non-trivial (>=2 pairs, or several optimal choices existed).
-func alnCheck(r *obs.Run, which string, c alnCase, al alphabet.Alphabet, M [][]int) bool {
+//
+// given is either empty (fresh sequence objects are built for every call) or holds the caller's own long-lived objects:
+// plain reference, plain query, quality reference, quality query, all spelling c.R and c.Q.
+func alnCheck(r *obs.Run, which string, c alnCase, al alphabet.Alphabet, callerM [][]int, given ...align.AlphabetSlicer) bool {
 	affine := alnAffine(c.Alg)
 	rb, qb := []byte(c.R), []byte(c.Q)
 	ri, qi := alnIdx(al, rb), alnIdx(al, qb)
-	ag := alnAligner(c.Alg, M, c.Open)
+	// the aligner gets the caller's matrix object; everything the verdicts are computed from reads M, a copy taken before
+	// the call (an aligner that rewrites the matrix it was given is judged by the scores it was given)
+	M := alnCopyMatrix(callerM)
+	ag := alnAligner(c.Alg, callerM, c.Open)
+	cur := c
+	alnCur = &cur
 	// C08 is stated for plain and quality letters alike: half of its runs go through the quality-letter bodies
 	// (C09 runs both and compares them)
 	qual := which == "C08" && r.Rng.Intn(2) == 0
-	out := alnRun(ag, alnMkSeq(rb, al, qual, r.Rng), alnMkSeq(qb, al, qual, r.Rng))
+	mkPair := func(quality bool) (align.AlphabetSlicer, align.AlphabetSlicer) {
+		if len(given) == 4 {
+			if quality {
+				return given[2], given[3]
+			}
+			return given[0], given[1]
+		}
+		return alnMkSeq(rb, al, quality, r.Rng), alnMkSeq(qb, al, quality, r.Rng)
+	}
+	ref0, qry0 := mkPair(qual)
+	out := alnRun(ag, ref0, qry0)
+	matrixChanged := alnRestoreMatrix(callerM, M)
 	if qual {
 		r.Count("quality_letter_runs", 1)
 	}
@@ -271,7 +292,11 @@ func alnCheck(r *obs.Run, which string, c alnCase, al alphabet.Alphabet, M [][]i
 	if kind == "Fitted" && f.wellFormed {
 		optFull, optRestricted = fittedFull[f.aEnd], fittedRestricted[f.aEnd]
 	}
-	facts := map[string]interface{}{"recomputed_total": f.recomputed, "reported_total": f.reported, "optimum": optFull, "optimum_without_adjacent_gaps": optRestricted, "columns": string(f.cols)}
+	facts := map[string]interface{}{"recomputed_total": f.recomputed, "reported_total": f.reported, "optimum": optFull, "optimum_without_adjacent_gaps": optRestricted, "columns": truncStr(string(f.cols), 2000)}
+	if matrixChanged {
+		facts["the_call_changed_the_callers_matrix"] = true
+		r.Count("calls_that_changed_the_callers_matrix", 1)
+	}
 	nontrivial := len(out.pairs) >= 2
 
 	if which == "C08" {
@@ -287,9 +312,9 @@ func alnCheck(r *obs.Run, which string, c alnCase, al alphabet.Alphabet, M [][]i
 		case f.recomputed > optFull:
 			viol("score-above-optimum", fmt.Sprintf("recomputed score %d exceeds the reference optimum %d", f.recomputed, optFull), facts)
 		case affine && f.recomputed == optRestricted && optRestricted < optFull:
-			r.Violate("affine-no-adjacent-gaps", fmt.Sprintf("%s open=%d r=%q q=%q: score %d, optimum %d needs a gap in one sequence directly followed by a gap in the other", c.Alg, c.Open, c.R, c.Q, f.recomputed, optFull), c.witness(out, facts))
+			r.Violate(alnKnownClass(r, which, "affine-no-adjacent-gaps", c), fmt.Sprintf("%s open=%d r=%q q=%q: score %d, optimum %d needs a gap in one sequence directly followed by a gap in the other", c.Alg, c.Open, c.R, c.Q, f.recomputed, optFull), c.witness(out, facts))
 		case affine && f.reported == optRestricted && f.recomputed != f.reported:
-			r.Violate("affine-layer-confusion", fmt.Sprintf("%s open=%d r=%q q=%q: described path scores %d but the reported pair scores sum to the table value %d", c.Alg, c.Open, c.R, c.Q, f.recomputed, f.reported), c.witness(out, facts))
+			r.Violate(alnKnownClass(r, which, "affine-layer-confusion", c), fmt.Sprintf("%s open=%d r=%q q=%q: described path scores %d but the reported pair scores sum to the table value %d", c.Alg, c.Open, c.R, c.Q, f.recomputed, f.reported), c.witness(out, facts))
 		default:
 			viol("suboptimal", fmt.Sprintf("recomputed score %d, reference optimum %d", f.recomputed, optFull), facts)
 		}
@@ -322,14 +347,18 @@ func alnCheck(r *obs.Run, which string, c alnCase, al alphabet.Alphabet, M [][]i
 		brief := fmt.Sprintf("pair %d [%d,%d)/[%d,%d) reports score %d, recomputed %d", f.pairMismatch, p.AS, p.AE, p.BS, p.BE, p.Score, f.pairWant)
 		switch {
 		case affine && (f.recomputed != f.reported || f.oppositeAbut) && (f.reported == optRestricted || f.reported == optFull):
-			r.Violate("affine-layer-confusion", fmt.Sprintf("%s open=%d r=%q q=%q: %s (reported scores sum to the table value %d)", c.Alg, c.Open, c.R, c.Q, brief, f.reported), c.witness(out, facts))
+			r.Violate(alnKnownClass(r, which, "affine-layer-confusion", c), fmt.Sprintf("%s open=%d r=%q q=%q: %s (reported scores sum to the table value %d)", c.Alg, c.Open, c.R, c.Q, brief, f.reported), c.witness(out, facts))
 		default:
 			viol("pair-score", brief, facts)
 		}
 		return nontrivial
 	}
 	// type independence: the QLetters run gives pair for pair the same coordinates and scores
-	qout := alnRun(ag, alnMkSeq(rb, al, true, r.Rng), alnMkSeq(qb, al, true, r.Rng))
+	qref, qqry := mkPair(true)
+	qout := alnRun(ag, qref, qqry)
+	if alnRestoreMatrix(callerM, M) {
+		r.Count("calls_that_changed_the_callers_matrix", 1)
+	}
 	r.Count("qletters_runs_compared", 1)
 	switch {
 	case qout.panicked != nil:
@@ -361,13 +390,26 @@ func alnCheck(r *obs.Run, which string, c alnCase, al alphabet.Alphabet, M [][]i
 		if k := r.Rng.Intn(4); k > 1 {
 			gapArg = alphabet.Letter([]byte{'.', '~'}[k-2])
 		}
-		if gapArg == al.Gap() && strings.IndexByte(c.R+c.Q, byte(al.Gap())) >= 0 {
-			gapArg = '.' // the sequences hold the gap letter themselves: only another filler can be told apart
+		for _, other := range []byte{'.', '~', '#', '+'} {
+			// the sequences hold the filler themselves (the gap letter is a letter like any other, and '.' is a letter of
+			// some alphabets): only a filler that occurs in neither can be told apart
+			if strings.IndexByte(c.R+c.Q, byte(gapArg)) < 0 {
+				break
+			}
+			gapArg = alphabet.Letter(other)
 		}
 		quality := r.Rng.Intn(2) == 0
-		rsq, qsq := alnMkSeq(rb, al, quality, r.Rng), alnMkSeq(qb, al, quality, r.Rng)
+		withOffsets := r.Rng.Intn(5) == 0
+		qualitySide := [2]bool{quality, quality}
+		if !withOffsets && r.Rng.Intn(6) == 0 {
+			// the pairs do not depend on the kind of sequence they were computed from: the plain copy of one sequence is
+			// rendered against the quality-carrying copy of the other
+			qualitySide[r.Rng.Intn(2)] = !quality
+			r.Count("format_renderings_of_one_plain_and_one_quality_sequence", 1)
+		}
+		rsq, qsq := alnMkSeq(rb, al, qualitySide[0], r.Rng), alnMkSeq(qb, al, qualitySide[1], r.Rng)
 		pairsForFormat := out.raw
-		if r.Rng.Intn(5) == 0 {
+		if withOffsets {
 			// sequences that do not start at position 0. Whether pairs then count from the first letter (as the pinned tree
 			// does) or in sequence coordinates is not fixed by the statement; they must be one of the two, and Format must
 			// read them the way the aligner wrote them.
@@ -378,6 +420,7 @@ func alnCheck(r *obs.Run, which string, c alnCase, al alphabet.Alphabet, M [][]i
 			rsq.(interface{ SetOffset(int) error }).SetOffset(ro)
 			qsq.(interface{ SetOffset(int) error }).SetOffset(qo)
 			po := alnPlainRun(ag, rsq, qsq)
+			alnRestoreMatrix(callerM, M)
 			same, shifted := po.panicked == nil && po.err == nil && len(po.pairs) == len(out.pairs), true
 			shifted = same
 			for k := range out.pairs {
@@ -411,6 +454,21 @@ func alnCheck(r *obs.Run, which string, c alnCase, al alphabet.Alphabet, M [][]i
 					b[x] = byte(v[x].L)
 				}
 				rows[k] = string(b)
+				// the subsequence of a quality-carrying sequence consists of (letter, quality) elements
+				if src, ok := [2]align.AlphabetSlicer{rsq, qsq}[k].(*linear.QSeq); ok {
+					at := [2]int{f.aStart, f.bStart}[k]
+					for x := range v {
+						if v[x].L == gapArg {
+							continue
+						}
+						if at < len(src.Seq) && v[x] != src.Seq[at] {
+							viol("format", fmt.Sprintf("Format row %d column %d holds %q with quality %d, element %d of the quality sequence is %q with quality %d", k, x, byte(v[x].L), v[x].Q, at, byte(src.Seq[at].L), src.Seq[at].Q), nil)
+							return
+						}
+						at++
+					}
+					r.Count("format_rows_compared_with_letters_and_qualities", 1)
+				}
 			default:
 				viol("format", fmt.Sprintf("Format row %d has type %T", k, fa[k]), nil)
 				return
@@ -431,6 +489,44 @@ func alnCheck(r *obs.Run, which string, c alnCase, al alphabet.Alphabet, M [][]i
 		}
 		if len(rows[0]) != len(f.cols) {
 			viol("format", fmt.Sprintf("Format rows have %d columns, the pairs describe %d", len(rows[0]), len(f.cols)), nil)
+			return
+		}
+		if r.Rng.Intn(4) == 0 {
+			// the rows are the caller's: they are overwritten and appended to, then the same sequence objects are rendered
+			// again; rows that were windows into the sequences would hand the damage on to the second rendering
+			for k := range fa {
+				switch v := fa[k].(type) {
+				case alphabet.Letters:
+					for x := range v {
+						v[x] = gapArg
+					}
+					_ = append(v, gapArg, gapArg)
+				case alphabet.QLetters:
+					for x := range v {
+						v[x] = alphabet.QLetter{L: gapArg, Q: 1}
+					}
+					_ = append(v, alphabet.QLetter{L: gapArg}, alphabet.QLetter{L: gapArg})
+				}
+			}
+			fb := align.Format(rsq.(seq.Sequence), qsq.(seq.Sequence), pairsForFormat, gapArg)
+			for k := range fb {
+				again := ""
+				switch v := fb[k].(type) {
+				case alphabet.Letters:
+					again = string(alphabet.LettersToBytes(v))
+				case alphabet.QLetters:
+					b := make([]byte, len(v))
+					for x := range v {
+						b[x] = byte(v[x].L)
+					}
+					again = string(b)
+				}
+				if again != rows[k] {
+					viol("format", fmt.Sprintf("Format row %d was %q; after the caller overwrote the rows it got, rendering the same sequences and pairs again gives %q", k, truncStr(rows[k], 80), truncStr(again, 80)), nil)
+					return
+				}
+			}
+			r.Count("format_renderings_repeated_after_overwriting_the_rows", 1)
 		}
 	}()
 	if f.oppositeAbut {
@@ -471,6 +567,7 @@ func alnCases(r *obs.Run) int {
 
 func alnCaseFn(which string) func(r *obs.Run, i int) {
 	return func(r *obs.Run, i int) {
+		defer alnHeldReport(r)
 		k2, k3 := alnExhaustivePlan(r)
 		ex := 40*len(k2) + 40*len(k3)
 		myEx := r.Share(ex)
@@ -502,6 +599,10 @@ func alnCaseFn(which string) func(r *obs.Run, i int) {
 			return
 		}
 		i -= myEx
+		if i < 4 { // every batch starts its random part with four large problems, the aligners taking turns
+			alnBigCase(r, which, i, alnAlgs[(4*r.Batch+i+int(r.Seed))%len(alnAlgs)])
+			return
+		}
 		nRandom := r.Share(r.Pick(10000, 100000))
 		if i < nRandom {
 			alnRandomCase(r, which)
@@ -526,6 +627,13 @@ var alnAlphas = []alnAlpha{
 	{"DNAgapped", alphabet.DNAgapped, "acgtACGT", [][][]int{matrix.NUC_4}},
 	{"DNAredundant", alphabet.DNAredundant, "acmgrsvtwyhkdbnACGTN", [][][]int{matrix.NUC_4_4}},
 	{"Protein", alphabet.Protein, "abcdefghiklmnpqrstvwyzACDEFGHIKLMNPQRSTVWY", [][][]int{matrix.BLOSUM62, matrix.PAM250, matrix.BLOSUM45}},
+	// alphabets that tell upper from lower case, and alphabets whose gap letter is not '-' (there '-' and '.' are
+	// letters like any other); the first two entries are the ones the ill-typed calls draw from
+	{"RNAgapped", alphabet.RNAgapped, "acguACGU", [][][]int{matrix.NUC_4}},
+	{"RNAredundant", alphabet.RNAredundant, "acmgrsvuwyhkdbnACGUN", [][][]int{matrix.NUC_4_4}},
+	{"cased -acgtACGT", alphabet.Must(alphabet.NewAlphabet("-acgtACGT", feat.Undefined, '-', 'n', alphabet.CaseSensitive)), "acgtACGT", nil},
+	{"cased *xyzXY.- (gap *)", alphabet.Must(alphabet.NewAlphabet("*xyzXY.-", feat.Undefined, '*', 'n', alphabet.CaseSensitive)), "xyzXY.-", nil},
+	{".acgu (gap .)", alphabet.Must(alphabet.NewAlphabet(".acgu", feat.Undefined, '.', 'n', !alphabet.CaseSensitive)), "acguACGU", nil},
 }
 
 func init() {
@@ -629,8 +737,9 @@ func alnPlainRun(a align.Aligner, ref, query align.AlphabetSlicer) (out alnRunOu
 	return
 }
 
-// alnParallel lets several goroutines align unrelated problems at the same time, each with an aligner value, a matrix
-// and sequences of its own (nothing is shared on the caller's side). Every answer must be the answer the same problem
+// alnParallel lets several goroutines align at the same time: in half of the groups unrelated problems, each with an
+// aligner value, a matrix and sequences of its own (nothing is shared on the caller's side), in the other half with one
+// aligner value, matrix and reference object shared read-only. Every answer must be the answer the same problem
 // gave when it ran alone: an aligner that keeps working storage between calls shows up here (and, in the builds under
 // the race detector, as a report).
 func alnParallel(r *obs.Run, which string) {
@@ -656,22 +765,73 @@ func alnParallel(r *obs.Run, which string) {
 		}
 		return b
 	}
+	ln := func() int {
+		if rng.Intn(3) == 0 {
+			return 1 + rng.Intn(60)
+		}
+		return 128 + rng.Intn(100) // tables of 16384 cells and more
+	}
+	// in half of the groups the callers share, read-only, what a worker pool shares: one aligner value (and a second one
+	// built over the same matrix object), one reference sequence object, now and then one query object
+	type sharedAligner struct {
+		alg  string
+		open int
+		ag   align.Aligner
+	}
+	var shared []sharedAligner
+	var sharedM [][]int
+	var sharedX []byte
+	var sharedRef align.AlphabetSlicer
+	sharedQual := rng.Intn(2) == 0
+	if rng.Intn(2) == 0 {
+		sharedM = alnRandomMatrix(rng, aa.a.Len())
+		for k := 0; k < 2; k++ {
+			alg := oneAlg
+			if alg == "" {
+				alg = alnAlgs[rng.Intn(len(alnAlgs))]
+			}
+			open := 0
+			if alnAffine(alg) {
+				open = -rng.Intn(12)
+			}
+			shared = append(shared, sharedAligner{alg, open, alnAligner(alg, sharedM, open)})
+		}
+		sharedX = gen(ln())
+		sharedRef = alnMkSeq(sharedX, aa.a, sharedQual, rng)
+		r.Count("concurrent_caller_groups_sharing_aligner_matrix_and_reference", 1)
+	}
 	tasks := make([]*task, n)
 	for k := range tasks {
 		alg := oneAlg
 		if alg == "" {
 			alg = alnAlgs[rng.Intn(len(alnAlgs))]
 		}
+		if shared != nil {
+			sh := shared[0]
+			if rng.Intn(4) == 0 {
+				sh = shared[1]
+			}
+			t := &task{c: alnCase{Alg: sh.alg, Alphabet: aa.name, Matrix: sharedM, MatrixID: "random/shared", Open: sh.open, R: string(sharedX)}, ag: sh.ag, ref: sharedRef}
+			if k > 0 && rng.Intn(3) == 0 { // the same query object as the caller before
+				t.c.Q, t.qry = tasks[k-1].c.Q, tasks[k-1].qry
+			} else {
+				y := gen(ln())
+				if rng.Intn(2) == 0 && len(sharedX) > 4 {
+					y = append([]byte(nil), sharedX[rng.Intn(len(sharedX)/2):]...)
+					for j := 0; j < len(y)/8+1; j++ {
+						y[rng.Intn(len(y))] = aa.letters[rng.Intn(len(aa.letters))]
+					}
+				}
+				t.c.Q, t.qry = string(y), alnMkSeq(y, aa.a, sharedQual, rng)
+			}
+			t.want = alnPlainRun(t.ag, t.ref, t.qry)
+			tasks[k] = t
+			continue
+		}
 		M := alnRandomMatrix(rng, aa.a.Len())
 		open := 0
 		if alnAffine(alg) {
 			open = -rng.Intn(12)
-		}
-		ln := func() int {
-			if rng.Intn(3) == 0 {
-				return 1 + rng.Intn(60)
-			}
-			return 128 + rng.Intn(100) // tables of 16384 cells and more
 		}
 		x := gen(ln())
 		y := gen(ln())
@@ -705,7 +865,12 @@ func alnParallel(r *obs.Run, which string) {
 	}
 	close(start)
 	wg.Wait()
+	alnHeldRecheck(-1) // the answers held from the sequential calls, after the concurrent ones
 	r.Count("concurrent_caller_groups", 1)
+	sharing := "unrelated problems"
+	if shared != nil {
+		sharing = "with the same aligner values, matrix and reference object"
+	}
 	for ti, t := range tasks {
 		for k, g := range t.got {
 			r.Count("concurrent_alignments_compared", 1)
@@ -733,8 +898,8 @@ func alnParallel(r *obs.Run, which string) {
 			for _, o := range tasks {
 				others = append(others, o.c.Alg)
 			}
-			r.Violate("concurrent-callers", fmt.Sprintf("%s open=%d r=%q q=%q: with %d other callers aligning unrelated problems at the same time, repeat %d of caller %d gives %s; alone it gave %s",
-				t.c.Alg, t.c.Open, truncStr(t.c.R, 30), truncStr(t.c.Q, 30), n-1, k, ti, truncStr(what, 200), truncStr(fmt.Sprintf("pairs %v err %v panic %v", t.want.pairs, t.want.err, t.want.panicked), 200)),
+			r.Violate("concurrent-callers", fmt.Sprintf("%s open=%d r=%q q=%q: with %d other callers aligning %s at the same time, repeat %d of caller %d gives %s; alone it gave %s",
+				t.c.Alg, t.c.Open, truncStr(t.c.R, 30), truncStr(t.c.Q, 30), n-1, sharing, k, ti, truncStr(what, 200), truncStr(fmt.Sprintf("pairs %v err %v panic %v", t.want.pairs, t.want.err, t.want.panicked), 200)),
 				map[string]interface{}{"case": cc, "matrix": t.c.Matrix, "callers": others, "alone": fmt.Sprint(t.want.pairs), "concurrent": what})
 			return
 		}
@@ -747,10 +912,21 @@ func alnRandomCase(r *obs.Run, which string) {
 		alnParallel(r, which)
 		return
 	}
-	aa := alnAlphas[rng.Intn(len(alnAlphas))]
+	ai := rng.Intn(len(alnAlphas))
+	aa := alnAlphas[ai]
+	switch {
+	case ai >= 5:
+		r.Count("random_cases_over_alphabets_that_tell_case_or_have_another_gap_letter", 1)
+	case ai >= 3:
+		r.Count("random_cases_over_RNA_alphabets", 1)
+	}
 	var M [][]int
 	id := "random"
-	if rng.Intn(3) == 0 {
+	if rng.Intn(20) == 0 {
+		alnWindowSession(r, which, aa)
+		return
+	}
+	if rng.Intn(3) == 0 && len(aa.builtin) > 0 {
 		k := rng.Intn(len(aa.builtin))
 		// built-ins carry zero gap scores: copy and (sometimes) set the gap row and column
 		src := aa.builtin[k]
@@ -847,14 +1023,14 @@ func alnRandomCase(r *obs.Run, which string) {
 		for _, sq := range [][]byte{x, y} {
 			for k := range sq {
 				if rng.Intn(6) == 0 {
-					sq[k] = '-'
+					sq[k] = byte(aa.a.Gap())
 				}
 			}
 			if rng.Intn(2) == 0 {
-				sq[len(sq)-1] = '-'
+				sq[len(sq)-1] = byte(aa.a.Gap())
 			}
 			if rng.Intn(3) == 0 {
-				sq[0] = '-'
+				sq[0] = byte(aa.a.Gap())
 			}
 		}
 		r.Count("cases_with_gap_letters_in_the_sequences", 1)
@@ -865,6 +1041,10 @@ func alnRandomCase(r *obs.Run, which string) {
 		open = -rng.Intn(12)
 		if rng.Intn(4) == 0 {
 			open = 0
+		}
+		if rng.Intn(12) == 0 { // penalties that make gaps rare or forbid them
+			open = alnLargeOpens[rng.Intn(len(alnLargeOpens))]
+			r.Count("affine_cases_with_a_gap_open_of_37_to_2_to_the_40", 1)
 		}
 	}
 	c := alnCase{Alg: alg, Alphabet: aa.name, Matrix: M, MatrixID: id, Open: open, R: string(x), Q: string(y)}
@@ -910,6 +1090,7 @@ func alnIllTyped(r *obs.Run) {
 	var ref, query align.AlphabetSlicer
 	desc := ""
 	run := func() {
+		alnCur = nil
 		out := alnRun(alnAligner(alg, M, open), ref, query)
 		r.Count("ill_typed_calls", 1)
 		w := map[string]interface{}{"aligner": alg, "what": desc, "reference": string(x), "query": string(y), "matrix_rows": len(M)}
@@ -982,11 +1163,21 @@ func alnIllTyped(r *obs.Run) {
 		}
 	case 3: // Letters vs QLetters
 		ref, query = alnMkSeq(x, aa.a, false, rng), alnMkSeq(y, aa.a, true, rng)
+		desc = "mismatched sequence types"
+		if rng.Intn(2) == 0 { // one side is of a kind no aligner handles, the other plain or quality letters
+			what := ""
+			ref, what = alnOddSeq(rng, aa.a, x)
+			query = alnMkSeq(y, aa.a, rng.Intn(2) == 0, rng)
+			desc = "mismatched sequence types: " + what + " against letters"
+			r.Count("ill_typed_calls_with_columns_or_no_data_on_one_side", 1)
+		}
 		if rng.Intn(2) == 0 {
 			ref, query = query, ref
 		}
-		desc = "mismatched sequence types"
-		run()
+		for _, a := range alnAlgs {
+			alg = a
+			run()
+		}
 	case 4: // ragged or otherwise non-square matrix
 		row := rng.Intn(len(M))
 		if rng.Intn(2) == 0 { // the matrix object was used, well-formed, just before
@@ -1029,6 +1220,13 @@ func alnIllTyped(r *obs.Run) {
 		qu := rng.Intn(2) == 0
 		ref, query = alnMkSeq(x, aa.a, qu, rng), alnMkSeq(y, aa.a, qu, rng)
 		desc = fmt.Sprintf("undersized matrix (%dx%d for %d letters)", n, n, aa.a.Len())
+		if rng.Intn(3) == 0 { // no cells at all, or whole rows missing
+			M, desc = alnOddMatrix(rng, aa.a.Len())
+			if rng.Intn(2) == 0 {
+				open = 0
+			}
+			r.Count("matrices_without_cells_or_with_nil_rows", 1)
+		}
 		for _, a := range alnAlgs {
 			alg = a
 			run()
